@@ -1,21 +1,105 @@
 /-
   C16 — rule and schema catalogs are durable and crash-safe.
-  Model: ILV.Model.Catalog over ILV.Model.FS (in-place `fs::write` of catalog.json / schema.json, loaders'
-  failure behaviour).  Helper lemmas: ILV.Lemmas.Catalog.
+  Model: ILV.Model.Catalog over ILV.Model.FS, after the `fix:` commit (catalog saves = temp file + fsync + rename +
+  directory fsync; `drop_relation` saves the schema catalog).  Helper lemmas: ILV.Lemmas.Catalog.
+  FS assumption (Model/FS.lean, strict model): `rename` is atomic and durable in program order — on a real POSIX
+  file system it is durable once the parent directory is fsynced, which the repaired `save` does right after the
+  rename; unsynced file data may be torn at any byte.
 -/
 import ILV.Lemmas.Catalog
 namespace ILV.Props.C16
 open ILV ILV.FS ILV.Cat
 
-/-- a crash + reopen is acceptable iff the engine opens with the catalogs of before or after the operation
-    in flight (for a crash between operations both are the acknowledged catalogs). -/
+/-- a crash + reopen is acceptable iff the engine opens and each catalog (rules, schemas) is the one of before or
+    of after the operation in flight (for a crash between operations both are the acknowledged catalogs). -/
 def okOut : Out → Bool
-  | .reboot old new got => decide (got = some old) || decide (got = some new)
+  | .reboot old new (some m) =>
+    (decide (m.rules = old.rules) || decide (m.rules = new.rules)) &&
+    (decide (m.schemas = old.schemas) || decide (m.schemas = new.schemas))
+  | .reboot _ _ none => false
   | .ack _ _ => true
 
-/-- **C16 at full strength**: for every history, every crash point and every way the unsynced data may be
-    torn, every reopen succeeds and yields old or new catalogs. -/
-def C16_statement : Prop := ∀ h : List HItem, (run {} h).all okOut = true
+theorem okOut_of_outOk {o : Out} (h : outOk o) : okOut o = true := by
+  cases o with
+  | ack a s => rfl
+  | reboot old new got =>
+    obtain ⟨m, hg, hr, hs⟩ := h
+    subst hg
+    simp only [okOut, Bool.and_eq_true, Bool.or_eq_true, decide_eq_true_eq]
+    exact ⟨hr, hs⟩
+
+/-- **C16** (full statement). For every history of catalog operations, every crash point — between operations or
+    after any file-system step inside one — and every way the unsynced data of every file (the temp files included)
+    may be torn: the engine reopens, and each catalog is the old or the new one. -/
+theorem C16 (h : List HItem) : (run {} h).all okOut = true := by
+  have key : ∀ (h : List HItem) (st : St), Solid st → (run st h).all okOut = true := by
+    intro h
+    induction h with
+    | nil => intro st _; rfl
+    | cons it rest ih =>
+      intro st hS
+      obtain ⟨hok, hnext⟩ := runItem_solid st it hS
+      simp only [run]
+      cases hr : runItem st it with
+      | mk o st? =>
+        rw [hr] at hok hnext
+        cases st? with
+        | none => simp [okOut_of_outOk hok]
+        | some st' => simp [okOut_of_outOk hok, ih st' (hnext st' rfl)]
+  exact key h {} solid_init
+
+/-- every reopen in every history succeeds ("a crash never makes the KG unopenable"). -/
+theorem C16_always_reopens (h : List HItem) : ∀ o ∈ run {} h, ∀ old new got, o = .reboot old new got → got ≠ none := by
+  intro o ho old new got he hn
+  have := List.all_eq_true.1 (C16 h) o ho
+  subst he; subst hn
+  simp [okOut] at this
+
+def opsOf : List HItem → List COp
+  | [] => []
+  | .op o :: rest => o :: opsOf rest
+  | _ :: rest => opsOf rest
+
+def plain : HItem → Bool
+  | .op _ => true
+  | .restart _ => true
+  | _ => false
+
+/-- **C16, durability of acknowledgements.** Operations and crashes *between* operations (with arbitrary tearing of
+    unsynced data) only: the engine always reopens, and after any such history memory — and what a further restart
+    reloads — is exactly the result of applying the acknowledged operations in order: registrations minus removals,
+    for rules and schemas alike. -/
+theorem C16_acked_durable (h : List HItem) (hp : h.all plain = true) (cuts : List (Path × Cut)) :
+    ∃ st, finalSt {} h = some st ∧ st.mem = specRun {} (opsOf h) ∧
+      recover (crash st.disk (cutsOf cuts)) = some (specRun {} (opsOf h)) := by
+  have key : ∀ (h : List HItem) (st : St), Solid st → h.all plain = true →
+      ∃ st', finalSt st h = some st' ∧ st'.mem = specRun st.mem (opsOf h) ∧ Solid st' := by
+    intro h
+    induction h with
+    | nil => intro st hS _; exact ⟨st, rfl, rfl, hS⟩
+    | cons it rest ih =>
+      intro st hS hp
+      simp only [List.all_cons, Bool.and_eq_true] at hp
+      cases it with
+      | op o =>
+        obtain ⟨_, hnext⟩ := runItem_solid st (.op o) hS
+        have hst : (runItem st (.op o)).2 = some { mem := (step st.mem o).2.1, disk := applyAll st.disk (step st.mem o).2.2 } := rfl
+        obtain ⟨st', h1, h2, h3⟩ := ih _ (hnext _ hst) hp.2
+        exact ⟨st', by simp only [finalSt, hst]; exact h1, by simpa [opsOf, specRun] using h2, h3⟩
+      | restart c =>
+        obtain ⟨_, hnext⟩ := runItem_solid st (.restart c) hS
+        have hrec := recover_of_ok hS.rules hS.schemas (cutsOf c)
+        have hst : (runItem st (.restart c)).2 = some { mem := st.mem, disk := crash st.disk (cutsOf c) } := by
+          simp [runItem, rebootFrom, hrec]
+        obtain ⟨st', h1, h2, h3⟩ := ih _ (hnext _ hst) hp.2
+        exact ⟨st', by simp only [finalSt, hst]; exact h1, by simpa [opsOf] using h2, h3⟩
+      | opCrash o j c => simp [plain] at hp
+  obtain ⟨st', h1, h2, h3⟩ := key h {} solid_init hp
+  refine ⟨st', h1, h2, ?_⟩
+  have := recover_of_ok h3.rules h3.schemas (cutsOf cuts)
+  rw [this, ← h2]
+
+/-! ### the hypotheses are met by non-trivial inputs; the former refutation witnesses now pass -/
 
 def a : Name := [97]
 def r : Name := [114]
@@ -25,180 +109,38 @@ def c1 : Clause := { id := 1, arity := 2, bad := false }
 def s0 : Schema := { id := 0, bad := false }
 def s1 : Schema := { id := 1, bad := false }
 
-/-- witness 1: `a` is registered; the registration of a second clause crashes inside the in-place rewrite of
-    `rules/catalog.json` — the file is a proper prefix of the new JSON, and the engine no longer opens. -/
-def witnessRule : List HItem := [.op (.reg a c0), .opCrash (.reg a c1) 2 (some ⟨0, .part⟩)]
-
-theorem witnessRule_unopenable :
-    run {} witnessRule =
-      [.ack .ok [0, 2], .reboot { rules := [(a, [c0])] } { rules := [(a, [c0, c1])] } none] := by decide
-
-/-- witness 2: the same for `schema.json` — the engine opens, every acknowledged schema is silently gone. -/
-def witnessSchema : List HItem := [.op (.sreg r s0), .opCrash (.sreg s s1) 2 (some ⟨0, .clean⟩)]
-
-theorem witnessSchema_silently_empty :
-    run {} witnessSchema =
-      [.ack .ok [1, 3], .reboot { schemas := [(r, s0)] } { schemas := [(r, s0), (s, s1)] } (some {})] := by decide
-
-/-- witness 3 (no tearing, no crash inside an operation): `drop_relation` removes the schema in memory without
-    saving; after a restart the dropped schema is back. -/
-def witnessDropRel : List HItem := [.op (.sreg r s0), .op (.dropRel r), .restart]
-
-theorem witnessDropRel_resurrects :
-    run {} witnessDropRel =
-      [.ack .ok [1, 3], .ack .ok [], .reboot {} {} (some { schemas := [(r, s0)] })] := by decide
-
-/-- witness 4: the catalog is never fsynced, so even after the acknowledgement a crash may leave it torn. -/
-def witnessLate : List HItem := [.op (.reg a c0), .restartTorn .ruleCat ⟨0, .nonl⟩]
-
-theorem witnessLate_unopenable :
-    run {} witnessLate = [.ack .ok [0, 2], .reboot { rules := [(a, [c0])] } { rules := [(a, [c0])] } none] := by decide
-
-theorem C16_refuted : ¬ C16_statement := by
-  intro h
-  have := h witnessRule
-  rw [witnessRule_unopenable] at this
-  revert this
-  decide
-
-/-! ### what does hold -/
-
-/-- Tearing the in-place rewrite of the rule catalog — at *any* byte, in *any* state — makes the engine unopenable. -/
-theorem torn_rule_catalog_unopenable (d : Disk) (c : RuleCat) (fr : Frag) :
-    recover (crash (apply d (.write .ruleCat [.rules c])) (cutAt .ruleCat ⟨0, fr⟩)) = none :=
-  recover_torn_rules d c fr
-
-/-- Tearing the rewrite of the schema catalog silently empties it, whatever was acknowledged before. -/
-theorem torn_schema_catalog_empty (d : Disk) (sc : SchemaCat) (fr : Frag) :
-    loadSchemas (crash (apply d (.write .schemaCat [.schemas sc])) (cutAt .schemaCat ⟨0, fr⟩)) = [] :=
-  loadSchemas_torn d sc fr
-
-/-- items that never tear a write: operations, restarts, crashes inside an operation at an FS-step boundary. -/
-def noTear : HItem → Bool
-  | .op _ => true
-  | .restart => true
-  | .opCrash _ _ none => true
-  | _ => false
-
-/-- `drop_relation` does not hit a relation that has a schema (the excluded input family), judged along the run. -/
-def safeRun (st : St) : List HItem → Bool
-  | [] => true
-  | it :: rest =>
-    safeItem st.mem it &&
-      match (runItem st it).2 with
-      | some st' => safeRun st' rest
-      | none => true
-
-/-- **C16_partial.** If writes are not torn and no `drop_relation` hits a relation with a schema, then for
-    every history and every crash point (between operations or at any FS-step boundary inside one) the engine
-    reopens with the old or the new catalogs. -/
-theorem C16_partial (h : List HItem) (hn : h.all noTear = true) (hs : safeRun {} h = true) :
-    (run {} h).all okOut = true := by
-  have key : ∀ (h : List HItem) (st : St), Consistent st → h.all noTear = true → safeRun st h = true →
-      (run st h).all okOut = true := by
-    intro h
-    induction h with
-    | nil => intro st _ _ _; rfl
-    | cons it rest ih =>
-      intro st hc hn hs
-      simp only [List.all_cons, Bool.and_eq_true] at hn
-      simp only [safeRun, Bool.and_eq_true] at hs
-      obtain ⟨hsi, hsr⟩ := hs
-      have hit : noTearItem it := by
-        cases it with
-        | op o => exact .op o
-        | restart => exact .restart
-        | opCrash o j cut =>
-          cases cut with
-          | none => exact .opCrash o j
-          | some c => simp [noTear] at hn
-        | restartTorn p c => simp [noTear] at hn
-      obtain ⟨hok, hnext⟩ := runItem_consistent st it hc hit hsi
-      simp only [run]
-      cases hr : runItem st it with
-      | mk o st? =>
-        rw [hr] at hok hnext hsr
-        cases st? with
-        | none =>
-          simp only [List.all_cons, List.all_nil, Bool.and_true]
-          cases o <;> simp_all [okOut, outOk]
-        | some st' =>
-          simp only [List.all_cons, Bool.and_eq_true]
-          refine ⟨?_, ih st' (hnext st' rfl) hn.2 hsr⟩
-          cases o <;> simp_all [okOut, outOk]
-  exact key h {} consistent_init hn hs
-
-/-- operations and clean restarts only -/
-def plain : HItem → Bool
-  | .op _ => true
-  | .restart => true
-  | _ => false
-
-def opsOf : List HItem → List COp
-  | [] => []
-  | .op o :: rest => o :: opsOf rest
-  | _ :: rest => opsOf rest
-
-/-- **C16_partial, crash-free histories.** Restarts are invisible: after any history of register / drop /
-    drop-by-prefix / clear / replace / remove-clause / schema register / update / remove (and `drop_relation` on
-    relations without a schema) with restarts anywhere, the engine holds — and a further restart reloads — exactly
-    the catalogs obtained by applying the acknowledged operations in order. -/
-theorem C16_partial_crash_free (h : List HItem) (hp : h.all plain = true) (hs : safeRun {} h = true) :
-    ∃ st, finalSt {} h = some st ∧ st.mem = specRun {} (opsOf h) ∧
-      recover (crash st.disk noCut) = some (specRun {} (opsOf h)) := by
-  have key : ∀ (h : List HItem) (st : St), Consistent st → h.all plain = true → safeRun st h = true →
-      ∃ st', finalSt st h = some st' ∧ st'.mem = specRun st.mem (opsOf h) ∧ Consistent st' := by
-    intro h
-    induction h with
-    | nil => intro st hc _ _; exact ⟨st, rfl, rfl, hc⟩
-    | cons it rest ih =>
-      intro st hc hp hs
-      simp only [List.all_cons, Bool.and_eq_true] at hp
-      simp only [safeRun, Bool.and_eq_true] at hs
-      obtain ⟨hsi, hsr⟩ := hs
-      cases it with
-      | op o =>
-        obtain ⟨_, hnext⟩ := runItem_consistent st (.op o) hc (.op o) hsi
-        have hst : (runItem st (.op o)).2 = some { mem := (step st.mem o).2.1, disk := applyAll st.disk (step st.mem o).2.2 } := rfl
-        rw [hst] at hsr
-        obtain ⟨st', h1, h2, h3⟩ := ih _ (hnext _ hst) hp.2 hsr
-        exact ⟨st', by simp only [finalSt, hst]; exact h1, by simpa [opsOf, specRun] using h2, h3⟩
-      | restart =>
-        obtain ⟨_, hnext⟩ := runItem_consistent st .restart hc .restart hsi
-        have hst : (runItem st .restart).2 = some { mem := st.mem, disk := crash st.disk noCut } := by
-          simp [runItem, rebootFrom, hc.recover_eq]
-        rw [hst] at hsr
-        obtain ⟨st', h1, h2, h3⟩ := ih _ (hnext _ hst) hp.2 hsr
-        exact ⟨st', by simp only [finalSt, hst]; exact h1, by simpa [opsOf] using h2, h3⟩
-      | opCrash o j cut => simp [plain] at hp
-      | restartTorn p c => simp [plain] at hp
-  obtain ⟨st', h1, h2, h3⟩ := key h {} consistent_init hp hs
-  exact ⟨st', h1, h2, by rw [← h2]; exact h3.recover_eq⟩
-
-/-! ### the hypotheses are satisfiable by non-trivial inputs -/
-
-/-- a crash-free history with a restart in the middle that exercises register, second clause, clear, re-register
-    with another arity, schema register and remove: admitted by `C16_partial_crash_free`, non-empty result. -/
+/-- former witness 1 (crash inside the rule-catalog write, file torn mid-way): the tear now hits the temp file and
+    the engine reopens with the old catalog; one step later (after the rename) with the new one. -/
 example :
-    let h : List HItem := [.op (.reg a c0), .op (.reg a c1), .restart, .op (.sreg r s0), .op (.clear a),
-      .op (.reg a { id := 3, arity := 1, bad := false }), .op (.srem r), .op (.sreg s s1)]
-    h.all plain = true ∧ safeRun {} h = true ∧
-      specRun {} (opsOf h) = { rules := [(a, [{ id := 3, arity := 1, bad := false }])], schemas := [(s, s1)] } := by
+    run {} [.op (.reg a c0), .opCrash (.reg a c1) 2 [(.ruleTmp, ⟨0, .part⟩)]] =
+      [.ack .ok [0, 2, 6, 8, 4], .reboot { rules := [(a, [c0])] } { rules := [(a, [c0, c1])] } (some { rules := [(a, [c0])] })] ∧
+    run {} [.op (.reg a c0), .opCrash (.reg a c1) 4 [(.ruleTmp, ⟨0, .part⟩), (.ruleCat, ⟨0, .clean⟩)]] =
+      [.ack .ok [0, 2, 6, 8, 4], .reboot { rules := [(a, [c0])] } { rules := [(a, [c0, c1])] } (some { rules := [(a, [c0, c1])] })] := by
   decide
 
-/-- a history with crashes at FS-step boundaries inside operations: admitted by `C16_partial`, and the two
-    crash points really produce "old" resp. "new". -/
+/-- former witnesses 2-4: torn schema write, `drop_relation` + restart, torn catalog after the acknowledgement. -/
 example :
-    let h : List HItem := [.op (.reg a c0), .opCrash (.reg a c1) 1 none, .opCrash (.sreg r s0) 2 none]
-    h.all noTear = true ∧ safeRun {} h = true ∧
-      run {} h = [.ack .ok [0, 2],
-        .reboot { rules := [(a, [c0])] } { rules := [(a, [c0, c1])] } (some { rules := [(a, [c0])] }),
-        .reboot { rules := [(a, [c0])] } { rules := [(a, [c0])], schemas := [(r, s0)] }
-          (some { rules := [(a, [c0])], schemas := [(r, s0)] })] := by
+    (run {} [.op (.sreg r s0), .opCrash (.sreg s s1) 2 [(.schemaTmp, ⟨0, .clean⟩)]]).all okOut = true ∧
+    run {} [.op (.sreg r s0), .op (.dropRel r), .restart []] =
+      [.ack .ok [1, 3, 7, 9, 5], .ack .ok [1, 3, 7, 9, 5], .reboot {} {} (some {})] ∧
+    run {} [.op (.reg a c0), .restart [(.ruleCat, ⟨0, .nonl⟩)]] =
+      [.ack .ok [0, 2, 6, 8, 4], .reboot { rules := [(a, [c0])] } { rules := [(a, [c0])] } (some { rules := [(a, [c0])] })] := by
   decide
 
-/-- the refuting histories lie outside both partial theorems for the stated reason only. -/
-example : witnessRule.all noTear = false ∧ safeRun {} witnessRule = true ∧
-    witnessDropRel.all noTear = true ∧ safeRun {} witnessDropRel = false := by decide
+/-- `drop_relation` on a name that is both a rule and a schema touches both catalogs; a crash between the two
+    saves leaves the new schema catalog and the old rule catalog — each catalog old or new, as stated. -/
+example :
+    run {} [.op (.reg a c0), .op (.sreg a s0), .opCrash (.dropRel a) 6 []] =
+      [.ack .ok [0, 2, 6, 8, 4], .ack .ok [1, 3, 7, 9, 5],
+       .reboot { rules := [(a, [c0])], schemas := [(a, s0)] } {} (some { rules := [(a, [c0])] })] := by
+  decide
+
+/-- a crash-free history with restarts that exercises every kind of operation is admitted by `C16_acked_durable`. -/
+example :
+    let h : List HItem := [.op (.reg a c0), .op (.reg a c1), .restart [], .op (.sreg r s0), .op (.clear a),
+      .op (.reg a { id := 3, arity := 1, bad := false }), .op (.srem r), .op (.sreg s s1), .op (.dropRel s)]
+    h.all plain = true ∧
+      specRun {} (opsOf h) = { rules := [(a, [{ id := 3, arity := 1, bad := false }])], schemas := [] } := by
+  decide
 
 end ILV.Props.C16
